@@ -989,6 +989,7 @@ func checkC11(w *World, r *Report) {
 		r.undecided("C11.local", nil, "evaluator model", token.NoPos, m.why)
 	}
 	capturedStateRule(w, r, e, "C11.captured-state")
+	sharedStateRule(w, r, "C11.package-state")
 	// own lock
 	r.rule("C11.own-lock", "every scope has a mutex of its own: the mu field of an Env is only ever assigned a mutex allocated in the same activation (the ascent to the outer scope locks the outer scope while the inner one is read-locked; with one shared mutex that is a recursive read lock, which dead-locks as soon as a writer queues between the two)")
 	nl := 0
@@ -1655,4 +1656,78 @@ func cancelAnswerRule(w *World, r *Report, e *Engine, rule string) {
 		}
 	}
 	r.floor(rule, "success returns of builtins that call Cancel", n, 1)
+}
+
+// sharedStateRule: every package-level variable of the library that is written after initialisation is state all
+// evaluations share.  The confirmed inventory is the debugger's stepping flags (written only while a stepper is
+// installed: C11.globals).  Anything else - a cache, a counter, a scratch buffer, a sync.Map - is reported.
+func sharedStateRule(w *World, r *Report, rule string) {
+	r.rule(rule, "outside package initialisation no function of the library assigns a package-level variable, writes into storage one holds or updates a package-level sync container, except the debugger's stepping flags (C11.globals): caches, counters and scratch buffers at package level are shared, unlocked or not, by every evaluation")
+	allowed := map[string]bool{}
+	if m := newEvalModel(w, newEngine(w)); m.ok {
+		for g := range m.flags {
+			allowed[g.Name()] = true
+		}
+	}
+	n := 0
+	for _, fn := range w.Funcs {
+		if isTestFunc(w, fn) || !libraryPkg(fnPkgPath(fn)) || fn.Name() == "init" || strings.HasSuffix(fnPkgPath(fn), "/debugger") {
+			continue
+		}
+		for _, b := range fn.Blocks {
+			for _, in := range b.Instrs {
+				var g *ssa.Global
+				what := ""
+				switch x := in.(type) {
+				case *ssa.Store:
+					if gl, ok := x.Addr.(*ssa.Global); ok {
+						g, what = gl, "assignment"
+					}
+					if ia, ok := x.Addr.(*ssa.IndexAddr); ok {
+						if ld, ok := ia.X.(*ssa.UnOp); ok {
+							if gl, ok := ld.X.(*ssa.Global); ok {
+								g, what = gl, "element write"
+							}
+						}
+					}
+					if fa, ok := x.Addr.(*ssa.FieldAddr); ok {
+						if gl, ok := fa.X.(*ssa.Global); ok {
+							g, what = gl, "field write"
+						}
+					}
+				case *ssa.MapUpdate:
+					if ld, ok := x.Map.(*ssa.UnOp); ok {
+						if gl, ok := ld.X.(*ssa.Global); ok {
+							g, what = gl, "map write"
+						}
+					}
+				case ssa.CallInstruction:
+					c := x.Common()
+					sc := c.StaticCallee()
+					if sc != nil && sc.Signature.Recv() != nil && len(c.Args) > 0 && (fnPkgPath(sc) == "sync" || fnPkgPath(sc) == "sync/atomic") {
+						rt := sc.Signature.Recv().Type().String()
+						if !strings.Contains(rt, "Mutex") && !strings.Contains(rt, "Once") && !strings.Contains(rt, "WaitGroup") {
+							if gl, ok := c.Args[0].(*ssa.Global); ok {
+								switch sc.Name() {
+								case "Load", "Range", "Get":
+								default:
+									g, what = gl, sc.Name()
+								}
+							}
+						}
+					}
+				}
+				if g == nil || !strings.HasPrefix(g.Pkg.Pkg.Path(), modPath) || strings.HasPrefix(g.Name(), "init$") {
+					continue
+				}
+				n++
+				if allowed[g.Name()] {
+					r.ok(rule, fn, what+" of "+g.Name(), in.Pos(), "stepping flag of the debugger (written only under a stepper: C11.globals)")
+				} else {
+					r.bad(rule, fn, what+" of package variable "+g.Name(), in.Pos(), "package-level state written while programs run: every evaluation on every environment shares it")
+				}
+			}
+		}
+	}
+	r.floor(rule, "writes to package-level state in the library", n, 3)
 }
